@@ -1,6 +1,6 @@
 CONSTANTS
   Acc = {"a", "b", "c"} NameInfo <- MCNameInfo FreeNames = {"freeone.jkl"}
-  Names = {"alpha.jkl", "ab.ibc", "beta.jkl"}
+  Names = {"alpha.jkl", "ab.ibc", "beta.jkl", "alpha.ibc"}
   Denoms = {"ujkl", "uusd"} Years = {1, 2} Datas = {"{}", "d1"} Recs = {"r1", "r2"}
   Prices <- MCPrices PriceAmts = {1, 777, 2000000}
   Jumps <- MCAllJumps
